@@ -29,7 +29,7 @@ out.append("|---|---|---|---|---|---|")
 for name, m, fm in rows:
     out.append("| {} | {} | {} | {} | {} | {} |".format(
         name, m.get("property"), (m.get("needs_to_manifest") or "").replace("|", "/"),
-        " ".join(m.get("caught_by_quick_checks") or []) or "-",
+        " ".join(m.get("caught_by_quick_checks") or []) or ("- (" + m["status"].split(":")[0] + ")" if m.get("status") else "-"),
         " ".join(m.get("run_but_silent") or []) or "-",
         "yes" if fm else "no"))
 out.append("\n## Notes per change\n")
